@@ -24,7 +24,7 @@ from fractions import Fraction
 import z3
 
 from .common import *  # noqa
-from symx.solver import explore, prove_formula
+from symx.solver import explore, prove_formula, prove_zero
 from symx import harness as H
 import numpy as realnp
 
@@ -558,6 +558,112 @@ def case_direct(log):
     _validate_leaf_shapes(log)
 
 
+# ---------------------------------------------------------------------------
+# the step of the runner that feeds the matching dispatch: runner.parts.match on a card with three DIFFERENT symbolic
+# matching ratios -- every heavy quark 4..6, both directions: a value (no unrelated exception) and the logarithm handed to
+# OperatorMatrixElement is the one of the quark being crossed
+# ---------------------------------------------------------------------------
+def _runner_match_env(parts, records):
+    import types
+
+    saved = {k: getattr(parts, k) for k in ("ome", "matching_condition", "_managers", "_matching_configs", "Operator")}
+
+    class _Ome:
+        def __init__(self, config, managers, nf, q2, is_backward, L, is_msbar):
+            records.append({"nf": nf, "q2": q2, "is_backward": is_backward, "L": L, "is_msbar": is_msbar})
+            self.nf, self.op_members = nf, {}
+
+        def compute(self):
+            pass
+
+    class _Map:
+        def to_flavor_basis_tensor(self, qed):
+            return ("res", "err")
+
+    parts.ome = types.SimpleNamespace(OperatorMatrixElement=_Ome)
+    parts.matching_condition = types.SimpleNamespace(MatchingCondition=types.SimpleNamespace(split_ad_to_evol_map=lambda *a: _Map()))
+    parts._managers = lambda eko: None
+    parts._matching_configs = lambda eko: {}
+    parts.Operator = lambda res, err: (res, err)
+
+    def restore():
+        for k, v in saved.items():
+            setattr(parts, k, v)
+
+    return restore
+
+
+def _runner_match_call(parts, ratios, hq, inverse, scheme="POLE"):
+    import types
+    from eko.io.items import Matching
+    from eko.quantities.heavy_quarks import QuarkMassScheme
+
+    heavy = types.SimpleNamespace(squared_ratios=list(ratios), masses_scheme=QuarkMassScheme[scheme])
+    eko_ = types.SimpleNamespace(theory_card=types.SimpleNamespace(order=(3, 0), heavy=heavy), operator_card=None)
+    return parts.match(eko_, Matching(scale=10.0, hq=hq, inverse=inverse))
+
+
+def case_runner_match(log):
+    parts = sym_module("eko.runner.parts")
+    log.encode(parts.match)
+    log.assume("runner.parts.match: OperatorMatrixElement replaced by a recorder of its constructor arguments, the flavour blow-up by a constant (C32 decides it)")
+    for hq in (4, 5, 6):
+        for inverse in (False, True):
+            rp = (MOD, "replay_runner_match", {"hq": hq, "inverse": inverse})
+
+            def run(hq=hq, inverse=inverse, rp=rp):
+                ks = [SR.var("kthr%d" % q) for q in (4, 5, 6)]
+                for k in ks:
+                    assume(k, ">0")
+                records = []
+                restore = _runner_match_env(parts, records)
+                try:
+                    kind, detail = _outcome(lambda: (_runner_match_call(parts, ks, hq, inverse), SR(0))[1])
+                finally:
+                    restore()
+                tag = "runner.parts.match hq=%d inverse=%s, three symbolic matching ratios" % (hq, inverse)
+                v = prove_formula(z3.BoolVal(kind != "crash"), "%s: ends in an operator or a clean refusal%s" % (tag, "  -- " + detail if kind == "crash" else ""))
+                if kind == "crash":
+                    _decide(log, v, _crash_key("runner.parts.match", detail), rp)
+                    return
+                _ok(log, v)
+                if kind == "value":
+                    good = len(records) == 1 and records[0]["nf"] == hq - 1
+                    _decide(log, prove_formula(z3.BoolVal(good), "%s: one matching element with nf = hq - 1 below the threshold (got %r)" % (tag, [r["nf"] for r in records])), "runner.parts.match:nf", rp)
+                    if records:
+                        want = parts.np.log(ks[hq - 4])
+                        _decide(log, prove_zero(SR(0) + records[0]["L"] - want, "%s: L handed to the matching element == ln(ratio of quark %d)" % (tag, hq)), "runner.parts.match:L", rp)
+                log.twin("domain")
+
+            _r, pm = explore(run, max_paths=8)
+            log.path_stats(pm)
+
+
+def replay_runner_match(point, hq, inverse):
+    """the real runner.parts.match (constructor of the matching element recorded) on ratios (1.2, 1.5, 2.0)"""
+    import importlib
+    import math
+
+    parts = importlib.import_module("eko.runner.parts")
+    ratios, records = [1.2, 1.5, 2.0], []
+    restore = _runner_match_env(parts, records)
+    try:
+        try:
+            _runner_match_call(parts, ratios, hq, inverse)
+        except (NotImplementedError, ValueError) as e:
+            return None if str(e).strip() else {"detail": "runner.parts.match hq=%d: %s without a message" % (hq, type(e).__name__)}
+        except Exception as e:  # noqa
+            return {"detail": "runner.parts.match(hq=%d, inverse=%s) with matching ratios^2 %r raises %s: %s" % (hq, inverse, ratios, type(e).__name__, e)}
+    finally:
+        restore()
+    if len(records) != 1 or records[0]["nf"] != hq - 1:
+        return {"detail": "runner.parts.match(hq=%d): matching elements built with nf %r, expected [%d]" % (hq, [r["nf"] for r in records], hq - 1)}
+    if abs(float(records[0]["L"]) - math.log(ratios[hq - 4])) > 1e-12:
+        return {"detail": "runner.parts.match(hq=%d, inverse=%s) with matching ratios^2 %r hands L = %r to the matching element, ln of quark %d's ratio is %r"
+                          % (hq, inverse, ratios, float(records[0]["L"]), hq, math.log(ratios[hq - 4]))}
+    return None
+
+
 def _validate_leaf_shapes(log):
     """translator validation: the shapes assumed for the per-order ekore functions are those the real functions return"""
     import numpy as np
@@ -881,7 +987,7 @@ def main():
         "symbolic: Mellin N, coupling lists, scales (both lepton numbers), L_sv, integrand factor, all anomalous dimensions / matrix elements",
     ]
     chk.out_of_claim = [
-        "finiteness of floating-point results; the Mellin path and interpolation part of QuadKerBase; scipy quad; the runner above quad_ker (cards, atlas, couplings)",
+        "finiteness of floating-point results; the Mellin path and interpolation part of QuadKerBase; scipy quad; the runner above quad_ker (cards, atlas, couplings) except runner.parts.match's hand-over to the matching element (case runner.match)",
         "the arithmetic inside the kernels below the dispatchers (C08-C13) -- replaced by contract stand-ins here",
         "QED evolution with polarized / time_like flags: quad_ker_ad does not pass the flags to quad_ker_qed, so the unpolarized space-like kernel is produced without a refusal (the statement allows a finite result; recorded as an observation)",
         "MSbar mass contributions to the N3LO matching (documented as absent)",
@@ -896,6 +1002,7 @@ def main():
     chk.assumptions = ["documented availability table: polarized AD and matching up to NNLO, time-like AD up to NNLO, time-like matching beyond NLO taken as zero (documented exception), "
                        "no polarized time-like, QED only with iterate-exact (doc/source/theory/{pQCD,TimeLike,Matching}.rst, kernels/singlet_qed.py)"]
     chk.case("direct", case_direct)
+    chk.case("runner.match", case_runner_match)
     nchunks = 14
     for i, ch in enumerate(_chunks(ev, nchunks if thorough else 10)):
         chk.case("evolution.%02d" % i, case_configs, kind="evolution", cfgs=ch, quick=quick)
